@@ -190,6 +190,9 @@ func (se *SessionExecutor) handleStmtExecute(reqCtx *util.RequestContext, data [
 		return nil, mysql.NewDefaultError(mysql.ErrUnknownStmtHandler,
 			strconv.FormatUint(uint64(id), 10), "stmt_execute")
 	}
+	// whatever the outcome (also a malformed packet that fails half way through
+	// binding), no bound value or long data may survive into the next execution
+	defer s.ResetParams()
 
 	flag := data[pos] & mysql.CursorTypeReadOnly
 	pos++
@@ -244,7 +247,6 @@ func (se *SessionExecutor) handleStmtExecute(reqCtx *util.RequestContext, data [
 	} else {
 		executeSQL = s.sql
 	}
-	defer s.ResetParams()
 	// execute sql using ComQuery
 	return se.handleQuery(reqCtx, executeSQL)
 }
